@@ -213,7 +213,9 @@ theorem PT_of_N : ∀ (x : Expr) (inBr al : Bool), N inBr al x = true → NoBad 
         | _ => rfl
       · cases i with
         | list => simp [Expr.isList] at hl
-        | ellipsis => simp [patEllEll] at h2
+        | ellipsis j dj bj ej =>
+          have : isAnonAxisNone j = true := by simpa [patEllEll] using h2.1
+          simp [ellOperand, isEllAnon, this]
         | args => simp [N] at h
         | op => simp [N] at h
         | _ => simp [ellOperand, Expr.isAxis, Expr.isFlat, Expr.isBrackets, Expr.isConcat]
